@@ -44,6 +44,13 @@ Definition read_next (b : Z) (st : list Z * list Z) (index : Z) : Z * Z :=
   (Z.lor (Z.shiftl (Z.of_nat begin_it) b) (nth (Z.to_nat index) inls 0),
    Z.lor (Z.shiftl (Z.of_nat end_it) b) (nth (Z.to_nat (index + 1)) inls 0)).
 
+(* the same with the two inline values handed over (what the code does: it reads just these two from the records) *)
+Definition read_next2 (b : Z) (offs : list Z) (index : Z) (inline_a inline_b : Z) : Z * Z :=
+  let begin_it := (upper_bound offs index - 1)%nat in
+  let rest := skipn (S begin_it) offs in
+  let end_it := (begin_it + upper_bound rest (index + 1))%nat in
+  (Z.lor (Z.shiftl (Z.of_nat begin_it) b) inline_a, Z.lor (Z.shiftl (Z.of_nat end_it) b) inline_b).
+
 (* ChopBits / InlineBits (bhiksha.cc): argmin over chop in [0, min(required, configured)] of
    (max_next >> (required - chop)) * 64 - max_offset * chop, first minimum wins *)
 Definition bits_req (x : Z) : Z := if x =? 0 then 0 else Z.log2 x + 1.
